@@ -2,10 +2,10 @@
 from props import element_common as ec
 
 NAMESPACE = 'C05'
-LEAN_TARGETS = ['MxV.Props.C05', 'MxV.Model.CollapseTheory', 'MxV.Tables.D_patterns']
+LEAN_TARGETS = ['MxV.Props.C05', 'MxV.Props.C05x', 'MxV.Model.CollapseTheory', 'MxV.Tables.D_patterns']
 THEOREMS = ['enum_accepts_iff', 'enum_rejects_other', 'range_exact', 'minExclusive_exact', 'minInclusive_exact', 'bool_passes_integer', 'exponent_float_passes_decimal', 'nan_passes_decimal', 'patterns_agree', 'pattern_language_is_schema', 'validator_pattern_is_schema',
             'every_pattern_has_schema', 'every_schema_pattern_is_enforced', 'pattern_count',
-            'token_pattern_accepts_iff', 'plain_pattern_accepts_iff', 'date_accepts_iff', 'xsDate_accepts_iff_w3c', 'union_accepts_iff_member', 'isPlainUnion_sound', 'union_types_exist', 'int_render_is_lexical', 'token_pattern_rejects_nonstring',
+            'token_pattern_accepts_iff', 'plain_pattern_accepts_iff', 'date_accepts_iff', 'xsDate_accepts_iff_w3c', 'union_accepts_iff_member', 'isPlainUnion_sound', 'union_types_exist', 'int_render_is_lexical', 'integerLexical_matches', 'int_renders_in_xs_integer', 'intLexS_is_the_schema_expression', 'token_pattern_rejects_nonstring',
             'token_pattern_type_accepts_iff_schema', 'plain_pattern_type_accepts_iff_schema', 'xsDate_is_plain_pattern',
             'isTokenPattern_sound', 'token_pattern_types_exist', 'Values.cleanedTokenL_eq_collapse', 'Values.collapseX_idem']
 TRUSTED_BASE = ['Lean 4.33.0 kernel', 'axioms: propext, Quot.sound, Classical.choice only (audited per theorem)',
